@@ -92,10 +92,9 @@ P7(cs) ==
                            IF q[k] + 2 = q[k + 1] /\ Len(cs[q[k] + 2]) = 1 /\ cs[q[k] + 2] # <<LP>> THEN <<q[k], q[k] + 2>> ELSE <<>>],
                         LAMBDA p : p # <<>>)
       n  == Len(cand)
-      \* filter_character_literal_candidates: index -1 of Python is the last element
-      prevOf(k) == IF k = 1 THEN cand[n] ELSE cand[k - 1]
-      kept == SelectSeq([k \in 1..n |-> IF k < n /\ cand[k][2] = cand[k + 1][1] /\ cand[k][1] = prevOf(k)[2] THEN <<>> ELSE cand[k]],
-                        LAMBDA p : p # <<>>)
+      \* filter_character_literal_candidates: left to right, a candidate that starts at the closing quote of the last
+      \* candidate taken is skipped (the comma in 'a','b' is not a literal)
+      kept == FoldLeft(LAMBDA acc, p : IF acc # <<>> /\ p[1] = acc[Len(acc)][2] THEN acc ELSE Append(acc, p), <<>>, cand)
   IN IF n = 0 THEN cs ELSE CombinePairs(cs, Reverse(kept))
 
 \* ---- pass 8: split_natural_numbers
